@@ -6,12 +6,22 @@ def parseSpec (j : Json) : Except String Spec := do
   pure ⟨← getNat j "id", ← getBool j "import_ok", ← getBool j "ctor_ok", ← getBool j "active",
         ← getOptInt j "order"⟩
 
-def handle (j : Json) : Except String Json := do
+def handleOne (j : Json) : Except String Json := do
   match (← getStr j "op") with
   | "load" =>
     let specs ← (← getArr j "specs").toList.mapM parseSpec
     pure (Json.mkObj [("loaded", Json.arr ((load specs).map (fun s => toJson s.id)).toArray)])
   | "exec" => handleExec j
   | op => throw s!"unknown op {op}"
+
+def handle (j : Json) : Except String Json := do
+  match (← getStr j "op") with
+  | "batch" =>
+    let rs := (← getArr j "reqs").toList.map (fun r =>
+      match handleOne r with
+      | .ok v => v
+      | .error e => Json.mkObj [("error", Json.str e)])
+    pure (Json.mkObj [("resps", Json.arr rs.toArray)])
+  | _ => handleOne j
 
 def main : IO Unit := serve handle
